@@ -108,6 +108,7 @@ def gen_base(rng, opts):
     case["controls"] = gen_shapes(rng, opts.get("nu_max", 2)) if rng.random() < 0.85 else []
     case["algebraics"] = []
     params, vars_ = [], []
+    kind0 = None
     for g in ("", "control", "control+"):
         if rng.random() < opts.get("p_param", 0.4):
             params.append({"rows": rng.choice([1, 1, 2]), "cols": 1, "grid": g})
@@ -119,9 +120,15 @@ def gen_base(rng, opts):
     M = rng.randint(1, opts.get("M_max", 3))
     kind = rng.choice(opts.get("methods", ["MS", "SS"]))
     intg = rng.choice(opts.get("intgs", ["rk", "expl_euler", "next"]))
+    if kind == "DC":
+        intg = "rk"
+        M = rng.randint(1, min(opts.get("M_max", 3), 3))
+        if rng.random() < opts.get("p_dae", 0.35):
+            case["algebraics"] = gen_shapes(rng, 2)
     discrete = intg == "next"
     case["discrete"] = discrete
     meth = {"kind": kind, "N": N, "M": M, "intg": "rk" if discrete else intg,
+            "degree": rng.randint(1, opts.get("deg_max", 4)), "scheme": rng.choice(["radau", "legendre"]),
             "grid": gen_grid(rng, N, opts.get("grids", ("Uniform", "Geometric", "Function")), opts)}
     case["method"] = meth
     # horizon
@@ -142,6 +149,8 @@ def gen_base(rng, opts):
         case["t0"] = {"free": jq(dyadic(rng, -1, 1, 1))}
     # dynamics
     kinds = ["x", "u", "p", "pc", "pp", "v", "vc", "vp", "t"]
+    if case["algebraics"]:
+        kinds += ["z"]
     if discrete:
         kinds += ["DT", "DTc"]
     syms = sym_list(case, kinds)
@@ -151,6 +160,9 @@ def gen_base(rng, opts):
     if M >= 3 and intg == "rk":
         maxdeg = min(maxdeg, 2)
     case["ode"] = [rand_poly(rng, syms, maxdeg) for _ in range(nx)]
+    nz = nslots(case["algebraics"])
+    # index-1 algebraic equations  z_i - g_i(x, u, p, t) = 0
+    case["alg"] = [["-", ["s", "z", i], rand_poly(rng, [s_ for s_ in syms if s_[1] != "z"], 2)] for i in range(nz)]
     case["quad"] = []
     case["n_explicit_quad"] = 0
     if rng.random() < opts.get("p_quad", 0.4):
@@ -212,6 +224,12 @@ def gen_point(rng, case):
         pt["t0"] = pt["P"][t0h["param"]]
     elif "var" in t0h:
         pt["t0"] = pt["V"][t0h["var"]]
+    if m["kind"] == "DC":
+        deg = m.get("degree", 4)
+        nz = nslots(case.get("algebraics", []))
+        pt["Xi"] = [[[d() for _ in range(nx)] for _ in range(M - 1)] for _ in range(N)]
+        pt["Xc"] = [[[[d() for _ in range(nx)] for _ in range(deg)] for _ in range(M)] for _ in range(N)]
+        pt["Zc"] = [[[[d() for _ in range(nz)] for _ in range(deg)] for _ in range(M)] for _ in range(N)]
     g = m.get("grid") or {}
     T, t0 = Fr(pt["T"]), Fr(pt["t0"])
     if g.get("localize_t0") or g.get("localize_T") or g.get("class") == "Free":
